@@ -100,11 +100,14 @@ claim('C17', 'proof',
       'trusted: npvc encoder; z3; aliasing facts of numpy operations (view / may-alias / fresh) in libspec; clone and pickle are scikit-learn / CPython (bounded histories only); known finding F17 (clone after pickle, deprecated aliases)',
       'ownership / frame / non-interference obligations on the symbolic executions of C03; ' + BOUNDED, ['clone / pickle and multi-step histories are explored by the stand-in only'])
 claim('C20', 'other',
-      'deductive: _check_sdp_from_eigen (NonPSDError iff an eigenvalue < -tol, ValueError iff tol < 0, definite-flag, and "a spectrum with an exactly zero eigenvalue is never definite" -- the clause F20 violated), '
-      '_auto_select_init (documented rule, exact), components_from_metric / _initialize_metric_mahalanobis / _initialize_components / _pseudo_inverse_from_eig at the shape, dtype, freshness (copies of user arrays), exception and seeding level for every option. '
-      'L^T L = M, Penrose equations and option meanings are decided by the bounded stand-in over matrices of size 1..8, every rank, spectra over 16 orders of magnitude.',
-      'trusted: npvc encoder; z3; cholesky / eigh / np.cov / make_spd_matrix / PCA / LDA contracts (assumed)', 'case analysis + shape-level symbolic execution; ' + BOUNDED,
-      ['value-level conversion identities are not yet discharged deductively (Lean lemmas exist, see lean/)'])
+      'deductive: components_from_metric at the VALUE level -- for every symmetric positive semi-definite M the returned L satisfies L^T L = M on each of the three branches (diagonal shortcut: Lean diag_sqrt_clip_gram; '
+      'Cholesky: numpy contract; eigh fallback: Lean eig_factor_gram_clip + eigh contract), in general L^T L is M with its negative eigenvalues clipped, non-symmetric => ValueError, the caller\'s tol reaches every sign test; '
+      '_check_sdp_from_eigen exact (NonPSDError iff an eigenvalue < -tol, ValueError iff tol < 0, definite flag, dtype-aware default tolerance, an exactly zero eigenvalue is never definite -- F20); '
+      '_pseudo_inverse_from_eig at the value level (spectrum inverted above the tolerance and exactly zero below, result V diag(w+) V^T; Penrose equations then by Lean pinv_from_eig_penrose); _auto_select_init (documented rule, exact); '
+      '_initialize_metric_mahalanobis / _initialize_components at the shape, dtype, freshness (copies of user arrays), exception, strict-PD and seeding level for every option. '
+      'The numerical statements (L^T L = M in floating point over 16 orders of magnitude, Penrose residuals) and the option meanings (covariance of the distinct points, pca/lda directions) are decided by the bounded stand-in over matrices of size 1..8, every rank.',
+      'trusted: npvc encoder; z3; A-real; cholesky / eigh / np.cov / make_spd_matrix / PCA / LDA contracts (assumed); Lean theorems transcribed into SMT axioms', 'value-level contracts + case analysis + shape-level symbolic execution; ' + BOUNDED,
+      ['meaning of the covariance / pca / lda options is checked at run time only (bounded)', 'A-real: floating-point conversion error is bounded only'])
 claim('C10', 'other',
       'deductive, on the real fit bodies: NCA.fit / MLKR.fit hand scipy.optimize.minimize THEIR OWN _loss_grad_lbfgs / _loss (sign -1 for NCA, same-class mask from the prepared labels, (X, y) for MLKR), jac=True, '
       'started at the transformation returned by _initialize_components, and store the optimiser result reshaped to (k, d); LMNN: an iterate is accepted only when its objective is strictly lower than the last accepted one '
